@@ -564,8 +564,8 @@ func judge(s caseSpec, lg caseLog) (vs []verdict, st caseStats) {
 			if g == int64(total) && w != nil {
 				sentinelSeen = true
 			}
-			if w == nil && !lg.WritersDone && o >= 0 && g <= int64(total) {
-				i++ // write list incomplete: cannot judge this element
+			if w == nil && o >= 0 && (g == int64(total) || (!lg.WritersDone && g < int64(total))) {
+				i++ // write list incomplete (case aborted before the record was collected): cannot judge this element
 				continue
 			}
 			if o < 0 || w == nil || g > int64(total) {
